@@ -15,10 +15,11 @@ TARGETS_PROP = ["theories/Properties/C02.vo"]
 SHARD = 1200
 PRELUDE = "Open Scope string_scope.\n"
 RULE = ("8 fixed corner shapes (incl. the embedded-pointer shapes of finding F5) + 44 (quick) / 600 (thorough) random struct shapes "
+        "+ 4 fixed and 4 / 54 random homonym shapes (function-local types that print like the package-level ones, see C03) "
         "generated as Go source from VERIF_SEED (as C03, with pointer-embedded structs and same-named / same-typed fields at several "
         "depths); per shape a request matrix through ForProductN, ForSpectrumN and ForShapeN: every key, raw field name, whole tag "
         "and miss against every unary focus type (the right ones, same-size wrong ones, `type S string` vs string, []byte vs []uint8, "
-        "types of fields behind embedded pointers), right names, too few names, extra names and random names for N-ary tuples, "
+        "types of fields behind embedded pointers, the homonym of a field's type by type and by the name of that field), right names, too few names, extra names and random names for N-ary tuples, "
         "container type parameters T and *T; accepted optics are exercised on the arena as in C01; every accepted Reflector is also "
         "given S by value, *Other, nil and (*S)(nil). A case is distinct by (shape layout, request) and non-trivial when the "
         "derivation was accepted and its Put changed memory")
